@@ -431,7 +431,7 @@ fn pr_strategy() -> BoxedStrategy<PR> {
         .boxed()
 }
 
-fn cmp_strategy() -> BoxedStrategy<CmpCase> {
+pub fn cmp_strategy() -> BoxedStrategy<CmpCase> {
     (
         prop::collection::vec(pr_strategy(), 0..4),
         prop::collection::vec(pr_strategy(), 0..4),
@@ -1571,7 +1571,7 @@ pub fn check_inject(case: &InjCase, ctx: &mut CaseCtx) {
     w.finish();
 }
 
-fn inject_strategy() -> BoxedStrategy<InjCase> {
+pub fn inject_strategy() -> BoxedStrategy<InjCase> {
     let inj = (
         prop_oneof![6 => 0u64..760, 2 => prop_oneof![Just(0u64), Just(249), Just(250), Just(499), Just(500), Just(749), Just(750)], 3 => 760u64..3000],
         prop_oneof![
@@ -1614,7 +1614,7 @@ fn offset_strategy() -> BoxedStrategy<u64> {
     .boxed()
 }
 
-fn duel_strategy() -> BoxedStrategy<DuelCase> {
+pub fn duel_strategy() -> BoxedStrategy<DuelCase> {
     (
         prop_oneof![3 => Just(2usize), 2 => Just(3usize)],
         prop::collection::vec(offset_strategy(), 3),
